@@ -8,6 +8,8 @@
 (* (setup_init succeeded: settings frozen).  low / ib / cpl are the values *)
 (* a LOWPASS / IBLOCK / COUPLING get request must return when they are     *)
 (* known (set explicitly since the last mode choice), -1000000 = unknown.  *)
+(* man = bitrate management as REQUESTED by the application (managed mode  *)
+(* chosen and not switched off through the control interface).            *)
 (* Every call is written as Chk<Call>(s,e) = names of the rules the        *)
 (* observed call e violates, Nxt<Call>(s,e) = abstract state afterwards.   *)
 (***************************************************************************)
@@ -17,7 +19,7 @@ E_FAULT == -129   E_IMPL == -130   E_INVAL == -131
 SetupCodes == {0, E_FAULT, E_IMPL, E_INVAL}
 Unknown == -1000000
 
-InitEnc == [stage |-> "none", ch |-> 0, rate |-> 0, low |-> Unknown, ib |-> Unknown, cpl |-> Unknown]
+InitEnc == [stage |-> "none", ch |-> 0, rate |-> 0, low |-> Unknown, ib |-> Unknown, cpl |-> Unknown, man |-> FALSE]
 
 Cleared(e) == e.vcs = 0 /\ e.vch = 0 /\ e.vrate = 0
 
@@ -32,7 +34,8 @@ ChkSetup(s, e, one) ==
   (IF one /\ e.ret = 0 /\ e.stone # 1 THEN {"OneStepSuccessFreezesSettings"} ELSE {})
 
 NxtSetup(s, e, one) ==
-  IF e.ret = 0 THEN [stage |-> IF one THEN "stone" ELSE "chosen", ch |-> e.ch, rate |-> e.rate, low |-> Unknown, ib |-> Unknown, cpl |-> 1]
+  IF e.ret = 0 THEN [stage |-> IF one THEN "stone" ELSE "chosen", ch |-> e.ch, rate |-> e.rate, low |-> Unknown, ib |-> Unknown, cpl |-> 1,
+                     man |-> (e.e \in {"SetupManaged", "InitManaged"})]
   ELSE IF one THEN InitEnc
   ELSE [s EXCEPT !.stage = IF s.stage = "chosen" THEN "inited" ELSE s.stage]      \* a failed choice leaves no usable mode
 
@@ -55,7 +58,8 @@ ChkCtl(s, e) ==
   (IF e.what = "lowget" /\ e.ret = 0 /\ s.low # Unknown /\ e.hz # s.low THEN {"GetReturnsWhatWasSet"} ELSE {}) \cup
   (IF e.what = "ibget" /\ e.ret = 0 /\ s.ib # Unknown /\ e.x10 # s.ib THEN {"GetReturnsWhatWasSet"} ELSE {}) \cup
   (IF e.what = "cpget" /\ e.ret = 0 /\ s.cpl # Unknown /\ e.v # s.cpl THEN {"GetReturnsWhatWasSet"} ELSE {}) \cup
-  (IF e.what \in {"lowget", "ibget", "cpget", "rm2get"} /\ e.ret # 0 THEN {"GetSucceeds"} ELSE {}) \cup
+  \* (a get request may be refused: RATEMANAGE2_GET has a non-zero low nibble and is treated like a set request once settings are frozen;
+  \*  the property only asks for a documented code, so no rule demands that gets succeed)
   (IF e.what = "rm2set" /\ e.ret = 0 /\ s.stage # "stone" /\
       (\/ (e.min > 0 /\ e.avg > 0 /\ e.min > e.avg) \/ (e.max > 0 /\ e.avg > 0 /\ e.max < e.avg) \/ (e.min > 0 /\ e.max > 0 /\ e.min > e.max)
        \/ e.damp1000 <= 0 \/ e.resbits < 0 \/ e.bias1000 < 0 \/ e.bias1000 > 1000)
@@ -65,6 +69,8 @@ NxtCtl(s, e) ==
   ELSE CASE e.what = "lowset" -> [s EXCEPT !.low = Clamp(e.hz, 2000, 99000)]
          [] e.what = "ibset"  -> [s EXCEPT !.ib = Clamp(e.x10, -150, 0)]
          [] e.what = "cpset"  -> [s EXCEPT !.cpl = IF e.v # 0 THEN 1 ELSE 0]
+         [] e.what = "rm2null" -> [s EXCEPT !.man = FALSE]
+         [] e.what = "rm2set" -> [s EXCEPT !.man = (e.act # 0)]
          [] OTHER -> s
 
 \* after a successful set-up everything downstream works
